@@ -11,6 +11,15 @@
 //!                 boundary integer set
 //!  * `tool_ctx`   the contexts' own instances (every level, through hook H5 `verif_rns_tool`) with the
 //!                 level's NTT tables
+//!  * `big_base`   production sizes: RNSBase of 1..18 (thorough ..65) moduli x arrays of 1..1024 (thorough ..8192)
+//!                 integers (63/64/65, 127/128/129, ... explicitly); array forms against BigU and against the
+//!                 single-value forms coefficient by coefficient; unit-position family
+//!  * `big_tool`   production sizes: RNSTool with 1..18 (thorough ..64) 60-bit primes at N = 2 and the 8/9 (thorough
+//!                 1..18) boundary at N = 64..1024, 4096 (thorough ..8192); every coefficient of position-distinct
+//!                 arrays judged by the same integer specifications (division-free restatement); Bsk NTT tables
+//!                 checked functionally; unit-position family
+//!  * `big_ctx`    the same on the tools (and NTT tables) of contexts with 9..18 (thorough ..33) primes / N up to
+//!                 4096 (thorough 8192)
 //!
 //! Integer specifications, re-derived from /repo/src/util/rns.rs (k = |q-base|, Q = prod q, B = prod base_B,
 //! Bsk = B u {m_sk}, mt = m_tilde = 2^32, g = gamma). FastBconv(x, q -> p) of BEHZ computes
@@ -66,6 +75,8 @@ pub fn describe(rep: &Report) {
     rep.assume("bases with product >= 2^18 (thorough: 1.3*2^20) are covered on the boundary integer set only: 0,1,Q-1,Q/2 neighbourhood, q_i, Q-q_i, punctured products +-1, rounding boundaries of q_last and of t x/Q, fixed generic fill values");
     rep.assume("decrypt_scale_and_round is judged exactly outside the band frac(t x/Q) in [1/2, 1/2 + k/gamma) and decrypt_mod_t outside |x/Q - 1/2| <= 2^-41; inside, either neighbour is accepted");
     rep.assume("mod_t_and_divide_q_last: this code's (SEAL's) one-sided convention y in [floor(x/q_last) - t + 1, floor(x/q_last)] is demanded");
+    rep.assume("big_* sections: structured families only (boundary integers, extreme CRT coefficients, position-distinct generic fill, unit positions), not all residue vectors; RNSTool is only constructible for power-of-two N, so fast_convert_array / exact_convey_array see the counts 2..8192 (powers of two) only — the counts 1, 63, 65, 127, ... are driven through RNSBase::decompose_array / compose_array");
+    rep.assume("big_* sections: the NTT tables inside RNSTool (base_Bsk_ntt_tables) are required to be negacyclic transforms modulo Bsk[i] in the order of Bsk (convolution theorem on X * X^(N-1) and a round trip), nothing about roots or output order");
     rep.assume("BaseConverter is crate-private: fast_convert_array / exact_convey_array are observed through the RNSTool routines only; the non-array fast_convert is not reachable");
 }
 
@@ -1295,6 +1306,1042 @@ fn ctx_cases(thorough: bool) -> Vec<CtxCase> {
     out
 }
 
+// ==========================================================================================
+// production-size sections: big_base, big_tool, big_ctx
+//
+// The sections above stop at 8 moduli and N = 2..16. The ones below drive the two dimensions every loop of rns.rs
+// runs over — the number of moduli of the base(s) and the number of coefficients of the arrays — across
+// 8/9, 16/17, 18 (thorough: 32/33, 64) moduli and 1, 2, 63, 64, 65, 128, 256, 1024 (thorough: 4096, 8192)
+// coefficients. The per-coefficient oracles are the same integer specifications as above, re-stated so that no
+// multi-word division is needed (the bit-by-bit BigU division would dominate at 18 x 61 bits x 4096 coefficients):
+// quotients are known by construction (a = x + Q h with 0 <= x < Q), congruences modulo Q are tested modulo every
+// q_i, and a claimed quotient M is verified by M Q <= t x < (M+1) Q instead of being computed.
+// Every array holds pairwise different integers (boundary integers at its head and at its tail, generic ones between),
+// so a transposed / strided / block-shifted coefficient is seen; the "unit" families put one non-zero integer at
+// every single position of an otherwise zero array.
+// ==========================================================================================
+
+/// x / d and x % d for a one-word divisor (limb-wise schoolbook long division)
+fn div_small(x: &BigU, d: u64) -> (BigU, u64) {
+    let mut out = vec![0u64; x.0.len()];
+    let mut r: u128 = 0;
+    for i in (0..x.0.len()).rev() {
+        let cur = (r << 64) | x.0[i] as u128;
+        out[i] = (cur / d as u128) as u64;
+        r = cur % d as u128;
+    }
+    (BigU::from_limbs(&out), r as u64)
+}
+
+/// (prod_{j != i} m_j) mod p
+fn punct_mod(m: &[u64], i: usize, p: u64) -> u64 {
+    m.iter().enumerate().filter(|(j, _)| *j != i).fold(1 % p, |acc, (_, &x)| mul_mod(acc, x % p, p))
+}
+
+/// the integer x in [0, P) whose CRT coefficients |x (P/p_i)^-1|_{p_i} are c_i:  x = c_i (P/p_i) (mod p_i)
+fn from_crt_coeffs(m: &[u64], c: &[u64]) -> BigU {
+    let r: Vec<u64> = (0..m.len()).map(|i| mul_mod(c[i] % m[i], punct_mod(m, i, m[i]), m[i])).collect();
+    crt(&r, m)
+}
+
+/// integers whose CRT coefficients are extreme (all p_i - 1, all but one, alternating, all halves): the sums
+/// sum_i c_i (P/p_i mod p') formed by a base conversion are then as large as the base allows, and the overshoot is k-1
+fn lazy_extremes(m: &[u64]) -> Vec<BigU> {
+    let k = m.len();
+    let top: Vec<u64> = m.iter().map(|&p| p - 1).collect();
+    let mut sets: Vec<Vec<u64>> = vec![top.clone(), m.iter().map(|&p| (p - 1) / 2).collect(), m.iter().map(|&p| p / 2 + 1).collect()];
+    let mut a = top.clone();
+    a[0] = 0;
+    sets.push(a);
+    let mut b = top.clone();
+    b[k - 1] = 0;
+    sets.push(b);
+    sets.push((0..k).map(|i| if i % 2 == 0 { top[i] } else { 0 }).collect());
+    sets.push((0..k).map(|i| if i % 2 == 1 { top[i] } else { 1 }).collect());
+    sets.iter().map(|c| from_crt_coeffs(m, c)).collect()
+}
+
+/// the integer whose every single term c_i (P/p_i) mod pt of the conversion to the prime pt is within 64 of pt - 1
+/// (a sum of individually reduced terms is then about k*pt)
+fn term_extremes(m: &[u64], pt: u64) -> BigU {
+    let c: Vec<u64> = (0..m.len())
+        .map(|i| {
+            let mi = punct_mod(m, i, pt);
+            match inv_mod_u64(mi, pt) {
+                Some(inv) if pt > 128 && mi != 0 => (0..64u64).map(|d| mul_mod(pt - 1 - d, inv, pt)).find(|&c| c < m[i]).unwrap_or(m[i] - 1),
+                _ => m[i] - 1,
+            }
+        })
+        .collect();
+    from_crt_coeffs(m, &c)
+}
+
+fn sort_dedup(mut v: Vec<BigU>) -> Vec<BigU> {
+    v.sort();
+    v.dedup();
+    v
+}
+
+fn generic_below(p: &BigU, seed: u64, j: usize, tag: &str) -> BigU {
+    p.mul_u64(h64(&(seed, j as u64, tag)) | 1).shr(64)
+}
+
+fn zero_col(got: &[u64]) -> bool {
+    got.iter().all(|&g| g == 0)
+}
+
+/// How the integers of a case are laid out into arrays of n coefficients.
+///  fill: the special integers, then generic ones up to a multiple of n, the last positions overwritten with the
+///        special integers again (head and tail of the arrays both see boundary values)
+///  unit: n arrays; array c is zero except for position c, which holds special integer c mod #specials
+struct Feed<T> {
+    n: usize,
+    unit: bool,
+    specials: Vec<T>,
+    zero: T,
+    flat: Vec<T>,
+}
+
+impl<T: Clone> Feed<T> {
+    fn new(n: usize, unit: bool, specials: Vec<T>, zero: T, generic: impl Fn(usize) -> T) -> Self {
+        assert!(!specials.is_empty());
+        let flat = if unit {
+            vec![]
+        } else {
+            let len = specials.len().div_ceil(n) * n;
+            let mut v = specials.clone();
+            while v.len() < len {
+                let j = v.len();
+                v.push(generic(j));
+            }
+            let tail = specials.len().min(len - specials.len());
+            for i in 0..tail {
+                v[len - 1 - i] = specials[i].clone();
+            }
+            v
+        };
+        Feed { n, unit, specials, zero, flat }
+    }
+    fn chunks(&self) -> usize {
+        if self.unit {
+            self.n
+        } else {
+            self.flat.len() / self.n
+        }
+    }
+    fn chunk(&self, c: usize) -> Vec<T> {
+        if self.unit {
+            let mut v = vec![self.zero.clone(); self.n];
+            v[c] = self.specials[c % self.specials.len()].clone();
+            v
+        } else {
+            self.flat[c * self.n..(c + 1) * self.n].to_vec()
+        }
+    }
+}
+
+/// special integers of [0, Q) for the routines that take a q-residue vector
+fn q_specials(a: &Aux, seed: u64) -> Vec<BigU> {
+    let mut v = boundary_xs(&a.q, a.t, seed);
+    v.extend(lazy_extremes(&a.q));
+    for &p in &a.bsk {
+        v.push(term_extremes(&a.q, p));
+    }
+    if a.t != 0 {
+        v.push(term_extremes(&a.q, a.gamma));
+    }
+    sort_dedup(v)
+}
+
+fn x_feed(a: &Aux, seed: u64, unit: bool) -> Feed<BigU> {
+    let qp = a.qp.clone();
+    Feed::new(a.n, unit, q_specials(a, seed), BigU::zero(), move |j| generic_below(&qp, seed, j, "c10-big-x"))
+}
+
+/// |m~ x|_Q from the residues of x: the integer below Q with residues m~ x_i mod q_i
+fn mt_times(a: &Aux, xr: &[u64]) -> BigU {
+    crt(&xr.iter().zip(&a.q).map(|(&r, &p)| mul_mod(r, a.mt % p, p)).collect::<Vec<_>>(), &a.q)
+}
+
+// ---- Bsk NTT tables: functional (order- and root-agnostic) ------------------------------------
+
+/// table i has to be a negacyclic transform modulo Bsk[i]: INTT(NTT(X) . NTT(X^(N-1))) = X^N = -1 with the pointwise
+/// products taken modulo Bsk[i], and INTT(NTT(c)) = c for the constant-(p-1) vector
+fn f_bsk_tables(tool: &RNSTool, a: &Aux, acc: &mut Acc) -> Result<(), Bad> {
+    let n = a.n;
+    let tabs = tool.base_Bsk_ntt_tables();
+    for (i, &p) in a.bsk.iter().enumerate() {
+        let tab = &tabs[i];
+        let mut x1 = vec![0u64; n];
+        x1[1] = 1;
+        let mut x2 = vec![0u64; n];
+        x2[n - 1] = 1;
+        let mut c = vec![p - 1; n];
+        call("const:Bsk_ntt_tables", || {
+            tab.ntt_negacyclic_harvey(&mut x1);
+            tab.ntt_negacyclic_harvey(&mut x2);
+            tab.ntt_negacyclic_harvey(&mut c);
+            tab.inverse_ntt_negacyclic_harvey(&mut c);
+        })?;
+        let mut prod: Vec<u64> = x1.iter().zip(&x2).map(|(&u, &v)| mul_mod(u % p, v % p, p)).collect();
+        call("const:Bsk_ntt_tables", || tab.inverse_ntt_negacyclic_harvey(&mut prod))?;
+        let ok = prod[0] == p - 1 && prod[1..].iter().all(|&v| v == 0) && c.iter().all(|&v| v == p - 1);
+        if !ok {
+            return Err(bad(
+                "const:Bsk_ntt_tables:not-for-modulus",
+                format!("table {i} of {} transforms modulo Bsk[{i}] = {p}: X * X^(N-1) = -1 and INTT(NTT(p-1,...)) = (p-1,...)", a.bsk.len()),
+                format!("product {:?}.. roundtrip {:?}..", &prod[..n.min(4)], &c[..n.min(4)]),
+            ));
+        }
+        acc.steps += 2;
+    }
+    acc.mask |= 8;
+    Ok(())
+}
+
+// ---- fast per-coefficient oracles -------------------------------------------------------------
+
+fn f_fastbconv_m_tilde(tool: &RNSTool, a: &Aux, feed: &Feed<BigU>, acc: &mut Acc) -> Result<(), Bad> {
+    let (n, k) = (a.n, a.q.len());
+    let mut om = a.bsk.clone();
+    om.push(a.mt);
+    let q_om = res_u(&a.qp, &om);
+    for ci in 0..feed.chunks() {
+        let ch = feed.chunk(ci);
+        let rs: Vec<Vec<u64>> = ch.iter().map(|x| res_u(x, &a.q)).collect();
+        let input = pack(&rs, n, k);
+        let mut dest = vec![0u64; om.len() * n];
+        call("fastbconv_m_tilde", || tool.fastbconv_m_tilde(&input, &mut dest))?;
+        for (j, x) in ch.iter().enumerate() {
+            let got = column(&dest, n, om.len(), j);
+            acc.steps += 1;
+            if x.is_zero() && zero_col(&got) {
+                continue;
+            }
+            let c = mt_times(a, &rs[j]);
+            let c_om = res_u(&c, &om);
+            let alpha = (0..k as u64).find(|&al| (0..om.len()).all(|i| add_mod(c_om[i], mul_mod(al % om[i], q_om[i], om[i]), om[i]) == got[i]));
+            match alpha {
+                Some(al) => acc.mask |= 1 << al.min(40),
+                None => {
+                    return Err(bad(
+                        "fastbconv_m_tilde:no-alpha",
+                        format!("coefficient {j} of {n}: x={} : residues mod {om:?} of |m~ x|_Q + a Q = {} + a*{} for one a in [0,{}]", x.to_hex(), c.to_hex(), a.qp.to_hex(), k - 1),
+                        format!("{got:?}"),
+                    ))
+                }
+            }
+        }
+    }
+    Ok(())
+}
+
+fn f_sm_mrq(tool: &RNSTool, a: &Aux, seed: u64, unit: bool, acc: &mut Acc) -> Result<(), Bad> {
+    let (n, k) = (a.n, a.q.len());
+    let mut im = a.bsk.clone();
+    im.push(a.mt);
+    let nb = a.bsk.len();
+    // c'' = |m~ x|_Q + aQ for a in {0, 1, k-1}, and the extremes of the centred Montgomery digit in every window [aQ, (a+1)Q)
+    let mut alphas = vec![0u64, 1.min(k as u64 - 1), k as u64 - 1];
+    alphas.dedup();
+    let mut specials: Vec<BigU> = vec![];
+    for x in q_specials(a, seed) {
+        let c = mt_times(a, &res_u(&x, &a.q));
+        for &al in &alphas {
+            specials.push(c.add(&a.qp.mul_u64(al)));
+        }
+    }
+    if a.qp.bits() > 34 {
+        let qlow = a.qp.rem_u64(a.mt);
+        for al in 0..k as u64 {
+            let lo = a.qp.mul_u64(al);
+            for r in [1u64 << 31, (1 << 31) - 1, (1 << 31) + 1, 0, 1, (1 << 32) - 1] {
+                let want = (a.mt - mul_mod(r, qlow, a.mt)) % a.mt;
+                let base = lo.shr(32).shl(32).add(&BigU::from_u64(want));
+                specials.push(if base < lo { base.add(&BigU::from_u64(a.mt)) } else { base });
+            }
+        }
+    }
+    let qp = a.qp.clone();
+    let kk = k as u64;
+    let feed = Feed::new(n, unit, specials, BigU::zero(), move |j| generic_below(&qp, seed, j, "c10-big-mrq").add(&qp.mul_u64(j as u64 % kk)));
+    let qi = bi(&a.qp);
+    let upper = bi(&a.qp.mul_u64(a.mt).add(&a.qp.mul_u64(2 * (k as u64 - 1))));
+    for ci in 0..feed.chunks() {
+        let ch = feed.chunk(ci);
+        let input = pack(&ch.iter().map(|c| res_u(c, &im)).collect::<Vec<_>>(), n, im.len());
+        let mut dest = vec![0u64; nb * n];
+        call("sm_mrq", || tool.sm_mrq(&input, &mut dest))?;
+        for (j, c) in ch.iter().enumerate() {
+            let got = column(&dest, n, nb, j);
+            acc.steps += 1;
+            if c.is_zero() && zero_col(&got) {
+                continue;
+            }
+            if got.iter().zip(&a.bsk).any(|(r, p)| r >= p) {
+                return Err(bad("sm_mrq:unreduced", "residues below their moduli".into(), format!("coefficient {j}: {got:?}")));
+            }
+            let y = crt_centered(&got, &a.bsk, &a.bskp);
+            let two_y = y.add(&y);
+            // m~ y = c'' modulo every q_i (<=> modulo Q)
+            let congruent = a.q.iter().all(|&p| mul_mod(y.rem_u64(p), a.mt % p, p) == c.rem_u64(p));
+            let lo_ok = two_y.cmp(&qi.negate()) != std::cmp::Ordering::Less;
+            let hi_ok = two_y.mul(&bi64(a.mt)).cmp(&upper) == std::cmp::Ordering::Less;
+            if !(congruent && lo_ok && hi_ok) {
+                return Err(bad(
+                    if !congruent { "sm_mrq:not-congruent" } else { "sm_mrq:outside-window" },
+                    format!("coefficient {j} of {n}: c''={} (= |m~ x|_Q + aQ, a <= k-1) : m~ y = c'' (mod Q), -Q/2 <= y < Q/2 + (k-1)Q/m~", c.to_hex()),
+                    format!("y={} residues {got:?}", show(&y)),
+                ));
+            }
+            acc.mask |= if y.neg { 1 } else if two_y.cmp(&qi) == std::cmp::Ordering::Greater { 4 } else { 2 };
+        }
+    }
+    Ok(())
+}
+
+/// (x, h) stands for the integer a = x + Q h, 0 <= x < Q: floor(a/Q) = h by construction
+#[derive(Clone)]
+struct XH {
+    x: BigU,
+    h: BigI,
+}
+
+impl XH {
+    fn val(&self, a: &Aux) -> BigI {
+        bi(&self.x).add(&bi(&a.qp).mul(&self.h))
+    }
+    fn is_zero(&self) -> bool {
+        self.x.is_zero() && self.h.mag.is_zero()
+    }
+}
+
+fn xh_feed(a: &Aux, seed: u64, unit: bool, hs_special: &[BigI], hs_generic: Vec<BigI>, tag: &'static str) -> Feed<XH> {
+    let mut specials = vec![];
+    for x in q_specials(a, seed) {
+        for h in hs_special {
+            specials.push(XH { x: x.clone(), h: h.clone() });
+        }
+    }
+    let qp = a.qp.clone();
+    Feed::new(a.n, unit, specials, XH { x: BigU::zero(), h: bi64(0) }, move |j| XH { x: generic_below(&qp, seed, j, tag), h: hs_generic[j % hs_generic.len()].clone() })
+}
+
+fn f_fast_floor(tool: &RNSTool, a: &Aux, seed: u64, unit: bool, acc: &mut Acc) -> Result<(), Bad> {
+    let (n, k) = (a.n, a.q.len());
+    let nb = a.bsk.len();
+    let mut im = a.q.clone();
+    im.extend(&a.bsk);
+    let tq = bi(&a.qp.mul_u64(a.t.max(1)));
+    let big = bi(&BigU::pow2(30).mul(&tq.mag));
+    let half = bi(&a.bskp.shr(1));
+    let hs_special = [bi64(0), BigI::from_i128(-1), big.clone(), big.negate().sub(&bi64(1)), half.clone()];
+    let hs_generic = vec![bi64(0), bi64(1), BigI::from_i128(-1), BigI::from_i128(-2), tq.clone(), tq.negate(), bi64(k as u64), big.clone(), big.negate(), big.sub(&bi64(1)), half.clone(), half.negate(), half.sub(&bi64(1))];
+    let feed = xh_feed(a, seed, unit, &hs_special, hs_generic, "c10-big-floor");
+    for ci in 0..feed.chunks() {
+        let ch = feed.chunk(ci);
+        let input = pack(&ch.iter().map(|v| res_i(&v.val(a), &im)).collect::<Vec<_>>(), n, im.len());
+        let mut dest = vec![0u64; nb * n];
+        call("fast_floor", || tool.fast_floor(&input, &mut dest))?;
+        for (j, v) in ch.iter().enumerate() {
+            let got = column(&dest, n, nb, j);
+            acc.steps += 1;
+            if v.is_zero() && zero_col(&got) {
+                continue;
+            }
+            let hres = res_i(&v.h, &a.bsk);
+            let alpha = (0..k as u64).find(|&al| (0..nb).all(|i| sub_mod(hres[i], al % a.bsk[i], a.bsk[i]) == got[i]));
+            match alpha {
+                Some(al) => acc.mask |= (1 << al.min(40)) | if v.h.neg { 1 << 42 } else { 0 },
+                None => {
+                    return Err(bad(
+                        "fast_floor:no-alpha",
+                        format!("coefficient {j} of {n}: a = x + Q h, x={} h={} : residues mod Bsk of floor(a/Q) - a' = h - a', a' in [0,{}]", v.x.to_hex(), show(&v.h), k - 1),
+                        format!("{got:?}"),
+                    ))
+                }
+            }
+        }
+    }
+    Ok(())
+}
+
+fn f_fastbconv_sk(tool: &RNSTool, a: &Aux, seed: u64, unit: bool, acc: &mut Acc) -> Result<(), Bad> {
+    let (n, k) = (a.n, a.q.len());
+    let nb = a.bsk.len();
+    let bi_b = bi(&a.bp);
+    let half_msk = (a.msk / 2) as i128;
+    let e_min = a.b.len() as i128 - 1 - half_msk;
+    let e_max = half_msk;
+    let mut specials: Vec<BigI> = vec![];
+    // every special integer of [0,Q) as target, both signs (|X| < Q < B/2: the core domain)
+    for x in q_specials(a, seed) {
+        specials.push(bi(&x));
+        specials.push(bi(&x).negate());
+    }
+    // positions inside [0,B) (boundary integers of B, extreme CRT coefficients of B) x quotients e = floor(X/B) of the specified range
+    let mut ys = boundary_xs(&a.b, 0, 7);
+    ys.extend(lazy_extremes(&a.b));
+    ys.push(term_extremes(&a.b, a.msk));
+    ys.push(term_extremes(&a.b, a.q[0]));
+    let ys = sort_dedup(ys);
+    let es: Vec<i128> = [0, -1, 1, 2, -2, a.t.max(1) as i128, 1 << 32, -(1 << 32), e_max, e_max - 1, e_min, e_min + 1].into_iter().filter(|e| (e_min..=e_max).contains(e)).collect();
+    for (ei, &e) in es.iter().enumerate() {
+        // e = 0 with every position; the other quotients with every 4th position (rotating), to keep many-prime bases affordable
+        for (yi, y) in ys.iter().enumerate() {
+            if e == 0 || (yi + ei) % 4 == 0 {
+                specials.push(bi(y).add(&bi_b.mul(&BigI::from_i128(e))));
+            }
+        }
+    }
+    let bp = a.bp.clone();
+    let bb = bi_b.clone();
+    let es2 = es.clone();
+    let feed = Feed::new(n, unit, specials, bi64(0), move |j| bi(&generic_below(&bp, seed, j, "c10-big-sk")).add(&bb.mul(&BigI::from_i128(es2[j % es2.len()]))));
+    for ci in 0..feed.chunks() {
+        let ch = feed.chunk(ci);
+        let input = pack(&ch.iter().map(|v| res_i(v, &a.bsk)).collect::<Vec<_>>(), n, nb);
+        let mut dest = vec![0u64; k * n];
+        call("fastbconv_sk", || tool.fastbconv_sk(&input, &mut dest))?;
+        for (j, v) in ch.iter().enumerate() {
+            let got = column(&dest, n, k, j);
+            acc.steps += 1;
+            if v.mag.is_zero() && zero_col(&got) {
+                continue;
+            }
+            let exp = res_i(v, &a.q);
+            let two = v.add(v);
+            let core = two.cmp(&bi_b.negate()) != std::cmp::Ordering::Less && two.cmp(&bi_b) == std::cmp::Ordering::Less;
+            if got != exp {
+                return Err(bad(
+                    if core { "fastbconv_sk:core:wrong" } else { "fastbconv_sk:ext:wrong" },
+                    format!("coefficient {j} of {n}: X={} (floor(X/B) in [{e_min},{e_max}]) -> X mod q = {exp:?}", show(v)),
+                    format!("{got:?}"),
+                ));
+            }
+            let cls: u64 = if core { 1 } else { 2 };
+            acc.mask |= cls << if v.neg { 2 } else { 0 };
+        }
+    }
+    Ok(())
+}
+
+fn f_floor_chain(tool: &RNSTool, a: &Aux, seed: u64, unit: bool, acc: &mut Acc) -> Result<(), Bad> {
+    let (n, k) = (a.n, a.q.len());
+    let nb = a.bsk.len();
+    let mut im = a.q.clone();
+    im.extend(&a.bsk);
+    // |floor(a/Q)| <= 2^30 t Q: inside the exact range of fastbconv_sk by the sizing invariant 2^32 t Q < B m_sk
+    let tq = bi(&a.qp.mul_u64(a.t.max(1)));
+    let big = bi(&BigU::pow2(30).mul(&tq.mag));
+    let hs_special = [bi64(0), BigI::from_i128(-1), big.clone(), big.negate()];
+    let hs_generic = vec![bi64(0), bi64(1), BigI::from_i128(-1), BigI::from_i128(-2), tq.clone(), tq.negate(), bi(&a.qp), bi(&a.qp).negate(), big.clone(), big.negate(), big.sub(&bi64(1))];
+    let feed = xh_feed(a, seed, unit, &hs_special, hs_generic, "c10-big-chain");
+    for ci in 0..feed.chunks() {
+        let ch = feed.chunk(ci);
+        let input = pack(&ch.iter().map(|v| res_i(&v.val(a), &im)).collect::<Vec<_>>(), n, im.len());
+        let mut mid = vec![0u64; nb * n];
+        call("fast_floor", || tool.fast_floor(&input, &mut mid))?;
+        let mut dest = vec![0u64; k * n];
+        call("fastbconv_sk", || tool.fastbconv_sk(&mid, &mut dest))?;
+        for (j, v) in ch.iter().enumerate() {
+            let got = column(&dest, n, k, j);
+            acc.steps += 1;
+            if v.is_zero() && zero_col(&got) {
+                continue;
+            }
+            let hres = res_i(&v.h, &a.q);
+            let alpha = (0..k as u64).find(|&al| (0..k).all(|i| sub_mod(hres[i], al % a.q[i], a.q[i]) == got[i]));
+            match alpha {
+                Some(al) => acc.mask |= (1 << al.min(40)) | if v.h.neg { 1 << 42 } else { 0 },
+                None => {
+                    return Err(bad(
+                        "floor_chain:no-alpha",
+                        format!("coefficient {j} of {n}: a = x + Q h, x={} h={} : residues mod q of floor(a/Q) - a' = h - a', a' in [0,{}]", v.x.to_hex(), show(&v.h), k - 1),
+                        format!("{got:?}"),
+                    ))
+                }
+            }
+        }
+    }
+    Ok(())
+}
+
+fn f_div_last(tool: &RNSTool, a: &Aux, ntt: Option<&[NTTTables]>, feed: &Feed<BigU>, bgv: bool, acc: &mut Acc) -> Result<(), Bad> {
+    let (n, k) = (a.n, a.q.len());
+    let name = if bgv { "mod_t_and_divide_q_last" } else { "divide_and_round_q_last" };
+    let ql = a.q[k - 1];
+    let rest = &a.q[..k - 1];
+    let inv_ql_t = if bgv { inv_mod_u64(ql % a.t, a.t).unwrap() } else { 0 };
+    for ci in 0..feed.chunks() {
+        let ch = feed.chunk(ci);
+        let input = pack(&ch.iter().map(|x| res_u(x, &a.q)).collect::<Vec<_>>(), n, k);
+        let mut coef = input.clone();
+        call(name, || if bgv { tool.mod_t_and_divide_q_last_inplace(&mut coef) } else { tool.divide_and_round_q_last_inplace(&mut coef) })?;
+        for (j, x) in ch.iter().enumerate() {
+            let got = column(&coef, n, k - 1, j);
+            acc.steps += 1;
+            if x.is_zero() && zero_col(&got) {
+                continue;
+            }
+            let exp: BigI = if bgv {
+                // y in [F - t + 1, F], y = x q_last^-1 (mod t)
+                let (f, _) = div_small(x, ql);
+                let rho = mul_mod(x.rem_u64(a.t), inv_ql_t, a.t);
+                let d = sub_mod(f.rem_u64(a.t), rho, a.t);
+                let y = bi(&f).sub(&bi64(d));
+                if mul_mod(y.rem_u64(a.t), ql % a.t, a.t) != x.rem_u64(a.t) {
+                    return Err(bad("oracle-self-check", "y q_last = x mod t".into(), show(&y)));
+                }
+                acc.mask |= if y.neg { 1 } else { 2 };
+                y
+            } else {
+                let xh = x.add(&BigU::from_u64(ql >> 1));
+                let (f, r) = div_small(&xh, ql);
+                if f.mul_u64(ql).add(&BigU::from_u64(r)) != xh {
+                    return Err(bad("oracle-self-check", "f q_last + r = x + floor(q_last/2)".into(), f.to_hex()));
+                }
+                acc.mask |= if x.rem_u64(ql) > (ql - 1) / 2 { 1 } else { 2 };
+                bi(&f)
+            };
+            let e = res_i(&exp, rest);
+            if got != e {
+                return Err(bad(
+                    &format!("{name}:coeff:wrong"),
+                    format!("coefficient {j} of {n}: x={} q_last={ql} t={} -> {} mod {rest:?} = {e:?}", x.to_hex(), a.t, show(&exp)),
+                    format!("{got:?}"),
+                ));
+            }
+        }
+        if let Some(tabs) = ntt {
+            let mut f = input.clone();
+            for i in 0..k {
+                call("ntt", || tabs[i].ntt_negacyclic_harvey(&mut f[i * n..(i + 1) * n]))?;
+            }
+            call(&format!("{name}_ntt"), || {
+                if bgv {
+                    tool.mod_t_and_divide_q_last_ntt_inplace(&mut f, tabs)
+                } else {
+                    tool.divide_and_round_q_last_ntt_inplace(&mut f, tabs)
+                }
+            })?;
+            let mut fwd = coef.clone();
+            for i in 0..k - 1 {
+                call("ntt", || tabs[i].ntt_negacyclic_harvey(&mut fwd[i * n..(i + 1) * n]))?;
+            }
+            if f[..(k - 1) * n] != fwd[..(k - 1) * n] {
+                let pos = (0..(k - 1) * n).find(|&i| f[i] != fwd[i]).unwrap();
+                return Err(bad(
+                    &format!("{name}:ntt-differs"),
+                    format!("array {ci}: the NTT-form result equals the transform of the coefficient-form result (component {} slot {}: {})", pos / n, pos % n, fwd[pos]),
+                    format!("{}", f[pos]),
+                ));
+            }
+            acc.steps += ch.len() as u64;
+            acc.mask |= 1 << 8;
+        }
+    }
+    Ok(())
+}
+
+fn f_scale_round(tool: &RNSTool, a: &Aux, feed: &Feed<BigU>, acc: &mut Acc) -> Result<(), Bad> {
+    let (n, k) = (a.n, a.q.len());
+    for ci in 0..feed.chunks() {
+        let ch = feed.chunk(ci);
+        let input = pack(&ch.iter().map(|x| res_u(x, &a.q)).collect::<Vec<_>>(), n, k);
+        let mut dest = vec![0u64; n];
+        call("decrypt_scale_and_round", || tool.decrypt_scale_and_round(&input, &mut dest))?;
+        for (j, x) in ch.iter().enumerate() {
+            acc.steps += 1;
+            let d = dest[j];
+            if x.is_zero() && d == 0 {
+                continue;
+            }
+            // M = floor(t x/Q) is the integer with M Q <= t x < (M+1) Q; the output d has to be M or M+1 (mod t), so M is d or d-1
+            let tx = x.mul_u64(a.t);
+            let mut verdict: Option<bool> = None;
+            if d < a.t {
+                for (m, up) in [(d, false), ((d + a.t - 1) % a.t, true)] {
+                    let lo = a.qp.mul_u64(m);
+                    if lo <= tx && tx < lo.add(&a.qp) {
+                        let two_r = tx.sub(&lo).shl(1);
+                        let in_band = two_r >= a.qp && (two_r == a.qp || two_r.sub(&a.qp).mul_u64(a.gamma) < a.qp.mul_u64(2 * k as u64));
+                        let cls = if two_r < a.qp { 1 } else if in_band { 4 } else { 2 };
+                        acc.mask |= cls;
+                        // down is right below 1/2 and tolerated inside the band; up is right from 1/2 on
+                        verdict = Some(if up { two_r >= a.qp } else { two_r < a.qp || in_band });
+                        break;
+                    }
+                }
+            }
+            if verdict != Some(true) {
+                let (m0, r) = tx.divrem(&a.qp);
+                return Err(bad(
+                    "decrypt_scale_and_round:wrong",
+                    format!("coefficient {j} of {n}: x={} t={} : round(t x/Q) mod t, t x = {} Q + {} (either neighbour inside frac in [1/2, 1/2 + k/gamma))", x.to_hex(), a.t, m0.to_hex(), r.to_hex()),
+                    format!("{d}"),
+                ));
+            }
+        }
+    }
+    Ok(())
+}
+
+fn f_mod_t(tool: &RNSTool, a: &Aux, feed: &Feed<BigU>, acc: &mut Acc) -> Result<(), Bad> {
+    let (n, k) = (a.n, a.q.len());
+    for ci in 0..feed.chunks() {
+        let ch = feed.chunk(ci);
+        let input = pack(&ch.iter().map(|x| res_u(x, &a.q)).collect::<Vec<_>>(), n, k);
+        let mut dest = vec![0u64; n];
+        call("decrypt_mod_t", || tool.decrypt_mod_t(&input, &mut dest))?;
+        for (j, x) in ch.iter().enumerate() {
+            acc.steps += 1;
+            if x.is_zero() && dest[j] == 0 {
+                continue;
+            }
+            let two_x = x.shl(1);
+            let pos = x.rem_u64(a.t);
+            let neg = bi(x).sub(&bi(&a.qp)).rem_u64(a.t);
+            let dist = if two_x >= a.qp { two_x.sub(&a.qp) } else { a.qp.sub(&two_x) };
+            let allowed: Vec<u64> = if dist.shl(40) <= a.qp {
+                acc.mask |= 4;
+                vec![pos, neg]
+            } else if two_x < a.qp {
+                acc.mask |= 1;
+                vec![pos]
+            } else {
+                acc.mask |= 2;
+                vec![neg]
+            };
+            if !allowed.contains(&dest[j]) {
+                return Err(bad("decrypt_mod_t:wrong", format!("coefficient {j} of {n}: x={} t={} : centred |x|_Q mod t in {allowed:?}", x.to_hex(), a.t), format!("{}", dest[j])));
+            }
+        }
+    }
+    Ok(())
+}
+
+fn run_fast(routine: &str, tool: &RNSTool, a: &Aux, ntt: Option<&[NTTTables]>, seed: u64, unit: bool, acc: &mut Acc) -> Result<(), Bad> {
+    match routine {
+        "constants" => {
+            r_constants(tool, a, acc)?;
+            f_bsk_tables(tool, a, acc)
+        }
+        "fastbconv_m_tilde" => f_fastbconv_m_tilde(tool, a, &x_feed(a, seed, unit), acc),
+        "sm_mrq" => f_sm_mrq(tool, a, seed, unit, acc),
+        "fast_floor" => f_fast_floor(tool, a, seed, unit, acc),
+        "fastbconv_sk" => f_fastbconv_sk(tool, a, seed, unit, acc),
+        "floor_chain" => f_floor_chain(tool, a, seed, unit, acc),
+        "divide_and_round_q_last" => f_div_last(tool, a, ntt, &x_feed(a, seed, unit), false, acc),
+        "mod_t_and_divide_q_last" => f_div_last(tool, a, ntt, &x_feed(a, seed, unit), true, acc),
+        "decrypt_scale_and_round" => f_scale_round(tool, a, &x_feed(a, seed, unit), acc),
+        "decrypt_mod_t" => f_mod_t(tool, a, &x_feed(a, seed, unit), acc),
+        _ => Err(bad("unknown-routine", "".into(), routine.into())),
+    }
+}
+
+// ---- section big_tool ---------------------------------------------------------------------------
+
+#[derive(Serialize, Deserialize, Clone, Debug)]
+pub struct BigToolCase {
+    pub n: usize,
+    pub q: Vec<u64>,
+    pub t: u64,
+    pub routine: String,
+    /// unit family (one non-zero integer at every single position) instead of the filled arrays
+    pub unit: bool,
+}
+
+fn check_big_tool(c: &BigToolCase, seed: u64) -> CaseOut {
+    he::env_real(seed, h64(&serde_json::to_string(c).unwrap_or_default()));
+    let k = c.q.len();
+    let key = |tail: &str| format!("big_tool:{}:k={k}:{}", c.routine, tail.strip_prefix(&format!("{}:", c.routine)).unwrap_or(tail));
+    if !tool_valid(&c.q, c.t) {
+        return CaseOut::skip("parameters outside the domain");
+    }
+    let tool = match guard(|| RNSBase::new(&mods(&c.q)).and_then(|b| RNSTool::new(c.n, &b, &Modulus::new(c.t)))) {
+        Ok(Ok(t)) => t,
+        Ok(Err(e)) => return CaseOut::fail(format!("big_tool:new:k={k}:refused-valid"), "RNSTool for odd pairwise coprime q coprime to t", e),
+        Err(p) => return CaseOut::fail(format!("big_tool:new:k={k}:panic:{}", panic_class(&p)), "RNSTool for odd pairwise coprime q coprime to t", p),
+    };
+    if !applicable(&c.routine, k, c.t) {
+        return CaseOut::skip("routine not applicable (needs t != 0 / two moduli)");
+    }
+    let a = match aux_of(&tool, c.n, c.t) {
+        Ok(a) => a,
+        Err(b) => return CaseOut::fail(key(&b.what), b.exp, b.obs),
+    };
+    let ntt: Option<Vec<NTTTables>> = if c.routine.contains("q_last") && c.q.iter().all(|&p| is_prime_u64(p) && p % (2 * c.n as u64) == 1) {
+        let lg = c.n.trailing_zeros() as usize;
+        match guard(|| NTTTables::create_ntt_tables(lg, &mods(&c.q))) {
+            Ok(Ok(t)) => Some(t),
+            Ok(Err(e)) => return CaseOut::fail(key("ntt-tables-refused"), "NTT tables for primes = 1 mod 2N", e),
+            Err(p) => return CaseOut::fail(key(&format!("ntt-tables-panic:{}", panic_class(&p))), "NTT tables", p),
+        }
+    } else {
+        None
+    };
+    let mut acc = Acc::default();
+    match run_fast(&c.routine, &tool, &a, ntt.as_deref(), seed, c.unit, &mut acc) {
+        Ok(()) => CaseOut::pass(acc.mask.count_ones() > 1, h64(&(c.routine.as_str(), k, acc.mask, ntt.is_some(), c.unit)), acc.steps),
+        Err(b) => CaseOut::fail(key(&b.what), format!("q={:?} t={} N={} {} | {}", c.q, c.t, c.n, if c.unit { "unit" } else { "fill" }, b.exp), b.obs),
+    }
+}
+
+fn t60() -> u64 {
+    *plain_moduli().last().unwrap()
+}
+
+/// the first k of the 60-bit primes = 1 mod 2n, largest first (reversed: ascending)
+fn q60(n: usize, k: usize, ascending: bool) -> Vec<u64> {
+    let mut v = primes_1_mod(2 * n as u64, 60, k);
+    assert_eq!(v.len(), k);
+    if ascending {
+        v.reverse();
+    }
+    v
+}
+
+fn big_tool_cases(thorough: bool) -> Vec<BigToolCase> {
+    let mut shapes: Vec<(usize, Vec<u64>, u64, bool)> = vec![];
+    let ts_quick = [0u64, 17, t60()];
+    let ts_full = [0u64, 17, 1 << 20, t60()];
+    if !thorough {
+        // many primes at tiny N
+        for k in 1..=18usize {
+            for &t in &ts_quick {
+                shapes.push((2, q60(2, k, false), t, false));
+            }
+        }
+        for k in [8usize, 9, 16, 17] {
+            shapes.push((8, q60(8, k, true), t60(), false));
+        }
+        // the boundaries 8/9 at production-size arrays
+        for n in [64usize, 128, 256, 512, 1024] {
+            for k in [1usize, 2, 8, 9] {
+                for &t in &ts_quick {
+                    shapes.push((n, q60(n, k, false), t, false));
+                }
+            }
+        }
+        shapes.push((128, q60(128, 17, true), t60(), false));
+        for n in [64usize, 1024] {
+            for k in [16usize, 17, 18] {
+                shapes.push((n, q60(n, k, false), 17, false));
+                shapes.push((n, q60(n, k, false), t60(), false));
+            }
+        }
+        shapes.push((4096, q60(4096, 2, false), t60(), false));
+        shapes.push((4096, q60(4096, 9, false), t60(), false));
+        // unit positions
+        for (n, k) in [(64usize, 3usize), (64, 9), (128, 9), (256, 2)] {
+            shapes.push((n, q60(n, k, false), t60(), true));
+        }
+    } else {
+        for n in [2usize, 4, 64, 128, 256, 512, 1024, 2048, 4096] {
+            for k in 1..=18usize {
+                for &t in &ts_full {
+                    shapes.push((n, q60(n, k, k % 2 == 0), t, false));
+                }
+            }
+        }
+        for n in [2usize, 64] {
+            for k in [24usize, 32, 33, 63, 64] {
+                for &t in &[0u64, t60()] {
+                    shapes.push((n, q60(n, k, false), t, false));
+                }
+            }
+        }
+        for k in [1usize, 2, 8, 9, 16, 17, 18] {
+            shapes.push((8192, q60(8192, k, false), 0, false));
+            shapes.push((8192, q60(8192, k, false), t60(), false));
+        }
+        // mixed sizes among many primes (B stays at k primes, limbs of Q not aligned with the primes)
+        for n in [8usize, 1024] {
+            let mut m = q60(n, 9, false);
+            m.extend(primes_1_mod(2 * n as u64, 30, 4));
+            m.extend(primes_1_mod(2 * n as u64, 45, 4));
+            m.rotate_left(5);
+            shapes.push((n, m.clone(), 17, false));
+            shapes.push((n, m, t60(), false));
+        }
+        for (n, k) in [(64usize, 3usize), (64, 9), (128, 9), (256, 2), (256, 9), (256, 17), (1024, 3), (1024, 9)] {
+            shapes.push((n, q60(n, k, false), t60(), true));
+        }
+    }
+    let mut out = vec![];
+    for (n, q, t, unit) in shapes {
+        for r in ROUTINES {
+            if unit && *r == "constants" {
+                continue;
+            }
+            out.push(BigToolCase { n, q: q.clone(), t, routine: r.to_string(), unit });
+        }
+    }
+    // simplest first
+    out.sort_by_key(|c| (c.unit, c.n * c.q.len() * if c.unit { c.n } else { 1 }));
+    out
+}
+
+// ---- section big_ctx ----------------------------------------------------------------------------
+
+fn check_big_ctx(c: &CtxCase, seed: u64) -> CaseOut {
+    he::env_real(seed, h64(&(serde_json::to_string(&c.spec).unwrap_or_default(), c.routine.as_str(), "big")));
+    let ctx = match guard(|| c.spec.context()) {
+        Ok(x) => x,
+        Err(p) => return CaseOut::fail(format!("big_ctx:context:panic:{}", panic_class(&p)), "context", p),
+    };
+    if !ctx.parameters_set() {
+        return CaseOut::skip("parameter set rejected by the library");
+    }
+    let mut acc = Acc::default();
+    let mut levels = 0u64;
+    let mut cd = Some(ctx.key_context_data().unwrap());
+    let mut first = true;
+    while let Some(d) = cd {
+        let qv: Vec<u64> = d.parms().coeff_modulus().iter().map(|m| m.value()).collect();
+        let t = if c.spec.scheme == Scheme::CKKS { 0 } else { c.spec.t };
+        let k = qv.len();
+        if applicable(&c.routine, k, t) {
+            let tool = d.verif_rns_tool();
+            let key = |tail: &str| format!("big_ctx:{}:k={k}:{}", c.routine, tail.strip_prefix(&format!("{}:", c.routine)).unwrap_or(tail));
+            let a = match aux_of(tool, c.spec.n, t) {
+                Ok(a) => a,
+                Err(b) => return CaseOut::fail(key(&b.what), b.exp, b.obs),
+            };
+            if a.q != qv {
+                return CaseOut::fail(key("base_q"), format!("{qv:?}"), format!("{:?}", a.q));
+            }
+            if d.small_ntt_tables().len() != k {
+                return CaseOut::fail(key("small_ntt_tables"), format!("{k} tables"), format!("{}", d.small_ntt_tables().len()));
+            }
+            if let Err(b) = run_fast(&c.routine, tool, &a, Some(d.small_ntt_tables().as_slice()), seed, false, &mut acc) {
+                return CaseOut::fail(key(&b.what), format!("{} level q={qv:?} | {}", c.spec.label(), b.exp), b.obs);
+            }
+            levels += 1;
+        }
+        cd = if first {
+            first = false;
+            let f = ctx.first_context_data().unwrap();
+            if f.parms_id() == d.parms_id() {
+                d.next_context_data()
+            } else {
+                Some(f)
+            }
+        } else {
+            d.next_context_data()
+        };
+    }
+    if levels == 0 {
+        return CaseOut::skip("routine not applicable at any level");
+    }
+    CaseOut::pass(acc.mask.count_ones() > 1, h64(&(c.routine.as_str(), acc.mask, levels)), acc.steps)
+}
+
+fn big_ctx_cases(thorough: bool) -> Vec<CtxCase> {
+    let c60 = |n: usize, k: usize| he::chain(n, &vec![60usize; k]);
+    let mut specs = vec![
+        ParamSpec::new(Scheme::BFV, 1024, c60(1024, 10), 17),
+        ParamSpec::new(Scheme::BGV, 1024, c60(1024, 9), 65537),
+        ParamSpec::new(Scheme::CKKS, 8, c60(8, 18), 0),
+    ];
+    if thorough {
+        specs.extend([
+            ParamSpec::new(Scheme::BFV, 4096, c60(4096, 9), 65537),
+            ParamSpec::new(Scheme::CKKS, 1024, c60(1024, 18), 0),
+            ParamSpec::new(Scheme::BGV, 2048, c60(2048, 12), 65537),
+            ParamSpec::new(Scheme::BFV, 4096, c60(4096, 17), t60()),
+            ParamSpec::new(Scheme::BFV, 8192, c60(8192, 9), 65537),
+            ParamSpec::new(Scheme::BGV, 4, c60(4, 33), 17),
+        ]);
+    }
+    let mut out = vec![];
+    for s in specs {
+        for r in ROUTINES {
+            out.push(CtxCase { spec: s.clone(), routine: r.to_string() });
+        }
+    }
+    out
+}
+
+// ---- section big_base ---------------------------------------------------------------------------
+
+#[derive(Serialize, Deserialize, Clone, Debug)]
+pub struct BigBaseCase {
+    pub moduli: Vec<u64>,
+    /// number of integers per array
+    pub count: usize,
+    /// unit family: `count` arrays, array c zero except for position c
+    pub unit: bool,
+}
+
+fn check_big_base(c: &BigBaseCase, seed: u64) -> CaseOut {
+    he::env_real(seed, h64(&(c.moduli.as_slice(), c.count, c.unit)));
+    let k = c.moduli.len();
+    match run_big_base(c, seed) {
+        Ok(acc) => CaseOut::pass(acc.mask.count_ones() > 1, h64(&("big_base", k, c.count.min(65), acc.mask)), acc.steps),
+        Err(b) => CaseOut::fail(format!("big_base:k={k}:{}:{}", if c.unit { "unit" } else { "fill" }, b.what), format!("moduli={:?} count={} | {}", c.moduli, c.count, b.exp), b.obs),
+    }
+}
+
+fn run_big_base(c: &BigBaseCase, seed: u64) -> Result<Acc, Bad> {
+    let m = &c.moduli;
+    let (k, count) = (m.len(), c.count);
+    let mut acc = Acc::default();
+    let base = call("new", || RNSBase::new(&mods(m)))?.map_err(|e| bad("new:refused-coprime", format!("Ok for pairwise coprime {m:?}"), e))?;
+    let p = BigU::product(m);
+    // constructor constants at this size
+    if base.len() != k || BigU::from_limbs(base.base_prod()) != p || base.base_prod().len() != k {
+        return Err(bad("const:base_prod", p.to_hex(), format!("{:x?}", base.base_prod())));
+    }
+    for i in 0..k {
+        let (punct, r) = div_small(&p, m[i]);
+        if r != 0 || punct.mul_u64(m[i]) != p {
+            return Err(bad("oracle-self-check", "P / m_i exact".into(), format!("i={i}")));
+        }
+        if BigU::from_limbs(&base.punctured_prod()[i]) != punct {
+            return Err(bad("const:punctured_prod", format!("i={i} {}", punct.to_hex()), format!("{:x?}", base.punctured_prod()[i])));
+        }
+        let inv = inv_mod_u64(punct.rem_u64(m[i]), m[i]).unwrap();
+        let op = &base.inv_punctured_prod_mod_base()[i];
+        let quo = (((inv as u128) << 64) / m[i] as u128) as u64;
+        if op.operand != inv || op.quotient != quo {
+            return Err(bad("const:inv_punctured_prod", format!("i={i} operand={inv} quotient={quo}"), format!("operand={} quotient={}", op.operand, op.quotient)));
+        }
+        acc.steps += 2;
+    }
+    let mut specials = boundary_xs(m, 0, seed);
+    specials.extend(lazy_extremes(m));
+    let specials = sort_dedup(specials);
+    let pp = p.clone();
+    let feed = Feed::new(count, c.unit, specials, BigU::zero(), move |j| generic_below(&pp, seed, j, "c10-big-base"));
+    for ci in 0..feed.chunks() {
+        let xs = feed.chunk(ci);
+        let orig: Vec<u64> = xs.iter().flat_map(|x| x.limbs(k)).collect();
+        let rs: Vec<Vec<u64>> = xs.iter().map(|x| if x.is_zero() { vec![0; k] } else { res_u(x, m) }).collect();
+        let exp = pack(&rs, count, k);
+        let mut buf = orig.clone();
+        call("decompose_array", || base.decompose_array(&mut buf))?;
+        if buf != exp {
+            let pos = (0..buf.len()).find(|&i| buf[i] != exp[i]).unwrap();
+            return Err(bad(
+                "decompose_array:wrong",
+                format!("array {ci}: component-major residues, [modulus {} = {}][integer {} = {}] = {}", pos / count, m[pos / count], pos % count, xs[pos % count].to_hex(), exp[pos]),
+                format!("{}", buf[pos]),
+            ));
+        }
+        call("compose_array", || base.compose_array(&mut buf))?;
+        if buf != orig {
+            let pos = (0..buf.len()).find(|&i| buf[i] != orig[i]).unwrap();
+            return Err(bad("compose_array:wrong", format!("array {ci}: integer {} = {} (limb {} = {:#x})", pos / k, xs[pos / k].to_hex(), pos % k, orig[pos]), format!("{:#x}", buf[pos])));
+        }
+        acc.steps += 2;
+        // single-value forms, coefficient by coefficient (in the unit family only the non-zero position and its neighbours)
+        for (j, x) in xs.iter().enumerate() {
+            if c.unit && x.is_zero() && j != 0 && j + 1 != count {
+                continue;
+            }
+            let mut one = x.limbs(k);
+            call("decompose", || base.decompose(&mut one))?;
+            if one != rs[j] {
+                return Err(bad("decompose:wrong", format!("x={} -> {:?}", x.to_hex(), rs[j]), format!("{one:?}")));
+            }
+            call("compose", || base.compose(&mut one))?;
+            if one != x.limbs(k) {
+                return Err(bad("compose:wrong", format!("{:?} -> {}", rs[j], x.to_hex()), format!("{one:x?}")));
+            }
+            acc.steps += 2;
+        }
+        acc.mask |= (if c.unit { 1 } else { 2 }) | (if rs.iter().any(|r| r.iter().any(|&v| v != 0)) { 4 } else { 0 });
+    }
+    if !c.unit {
+        // residue vectors that do not come from a decomposition: per modulus {0, 1, m-1, (m-1)/2, generic}, rotating with the
+        // position; composed against the reference CRT, decomposed back
+        let arrays = (40 / count).max(1);
+        for ai in 0..arrays {
+            let rs: Vec<Vec<u64>> = (0..count)
+                .map(|j| {
+                    (0..k)
+                        .map(|i| match (i + j + ai) % 5 {
+                            0 => 0,
+                            1 => 1 % m[i],
+                            2 => m[i] - 1,
+                            3 => (m[i] - 1) / 2,
+                            _ => h64(&(seed, ai as u64, j as u64, i as u64, "c10-big-res")) % m[i],
+                        })
+                        .collect()
+                })
+                .collect();
+            let input = pack(&rs, count, k);
+            let mut buf = input.clone();
+            call("compose_array", || base.compose_array(&mut buf))?;
+            for j in 0..count {
+                let e = crt(&rs[j], m);
+                if buf[j * k..(j + 1) * k] != e.limbs(k)[..] {
+                    return Err(bad("compose_array:wrong", format!("integer {j} of {count}: {:?} -> {}", rs[j], e.to_hex()), format!("{:x?}", &buf[j * k..(j + 1) * k])));
+                }
+            }
+            call("decompose_array", || base.decompose_array(&mut buf))?;
+            if buf != input {
+                let pos = (0..buf.len()).find(|&i| buf[i] != input[i]).unwrap();
+                return Err(bad("decompose_array:wrong", format!("[modulus {}][integer {}] = {}", pos / count, pos % count, input[pos]), format!("{}", buf[pos])));
+            }
+            acc.steps += 2 * count as u64;
+            acc.mask |= 8;
+        }
+    }
+    Ok(acc)
+}
+
+fn big_base_shapes(thorough: bool) -> Vec<Vec<u64>> {
+    let kmax = 65;
+    let p61 = p1(61, kmax);
+    let p60 = p1(60, kmax);
+    let mut v: Vec<Vec<u64>> = vec![];
+    let ks: Vec<usize> = if thorough { (1..=18).chain([24, 32, 33, 63, 64, 65]).collect() } else { (1..=18).collect() };
+    for &k in &ks {
+        // 61-bit primes, largest first
+        v.push(p61[..k].to_vec());
+        let corner = [8, 9, 16, 17].contains(&k);
+        if thorough || corner {
+            // 60-bit primes ascending
+            let mut asc = p60[..k].to_vec();
+            asc.reverse();
+            v.push(asc);
+        }
+        if k >= 4 && (thorough || corner) {
+            // mixed sizes: the limbs of the product are not aligned with the moduli
+            let mut mix: Vec<u64> = (0..k - 2).map(|i| if i % 2 == 0 { p60[i] } else { p61[i] }).collect();
+            mix.insert(k / 2, 1 << 32);
+            mix.push(3);
+            v.push(mix);
+        }
+    }
+    v
+}
+
+fn big_base_cases(thorough: bool) -> Vec<BigBaseCase> {
+    let counts: Vec<usize> = if thorough { vec![1, 2, 8, 16, 32, 63, 64, 65, 127, 128, 129, 255, 256, 257, 511, 512, 513, 1024, 4095, 4096, 4097, 8192] } else { vec![1, 2, 63, 64, 65, 128, 256, 1024] };
+    let unit_counts: Vec<usize> = if thorough { vec![63, 64, 65, 128, 129, 256, 1024] } else { vec![63, 64, 65, 128] };
+    let mut out = vec![];
+    for m in big_base_shapes(thorough) {
+        let k = m.len();
+        for &count in &counts {
+            if k > 18 && count > 1024 {
+                continue;
+            }
+            out.push(BigBaseCase { moduli: m.clone(), count, unit: false });
+        }
+        if [2, 9, 17, 33].contains(&k) {
+            for &count in &unit_counts {
+                out.push(BigBaseCase { moduli: m.clone(), count, unit: true });
+            }
+        }
+    }
+    out.sort_by_key(|c| (c.moduli.len() * c.count * if c.unit { c.count } else { 1 }, c.moduli.len()));
+    out
+}
+
 pub fn sections(cfg: &RunCfg) -> Vec<Box<dyn AnySection>> {
     let seed = cfg.seed;
     let th = cfg.thorough();
@@ -1335,5 +2382,21 @@ pub fn sections(cfg: &RunCfg) -> Vec<Box<dyn AnySection>> {
             move |c| check_ctx(c, seed),
         )
         .deadline(Duration::from_secs(120)),
+        E1::new("big_base", BIG_BASE_BOUND[th as usize], big_base_cases(th).into_iter(), move |c| check_big_base(c, seed)).batch(2).deadline(Duration::from_secs(300)),
+        E1::new("big_tool", BIG_TOOL_BOUND[th as usize], big_tool_cases(th).into_iter(), move |c| check_big_tool(c, seed)).batch(2).deadline(Duration::from_secs(300)),
+        E1::new("big_ctx", BIG_CTX_BOUND[th as usize], big_ctx_cases(th).into_iter(), move |c| check_big_ctx(c, seed)).batch(1).deadline(Duration::from_secs(600)),
     ]
 }
+
+const BIG_BASE_BOUND: [&str; 2] = [
+    "RNSBase of k = 1..18 moduli (61-bit primes largest first; for k in {8,9,16,17} also 60-bit ascending and mixed 60/61-bit + 2^32 + 3) x arrays of count in {1,2,63,64,65,128,256,1024} integers: boundary integers + extreme CRT coefficients at head and tail, pairwise different generic integers between; decompose_array/compose_array against BigU and against the single-value forms coefficient by coefficient; rotating boundary residue vectors against the reference CRT; unit family (one non-zero integer at EVERY position) for k in {2,9,17}, count in {63,64,65,128}",
+    "RNSBase of k = 1..18, 24, 32, 33, 63, 64, 65 moduli in three shapes (61-bit largest first, 60-bit ascending, mixed 60/61-bit + 2^32 + 3) x arrays of count in {1,2,8,16,32,63,64,65,127,128,129,255,256,257,511,512,513,1024,4095,4096,4097,8192} (k > 18: count <= 1024) integers: boundary integers + extreme CRT coefficients at head and tail, pairwise different generic integers between; array forms against BigU and against the single-value forms coefficient by coefficient; rotating boundary residue vectors against the reference CRT; unit family (one non-zero integer at EVERY position) for k in {2,9,17,33}, count in {63,64,65,128,129,256,1024}",
+];
+const BIG_TOOL_BOUND: [&str; 2] = [
+    "RNSTool::new(N, q, t) x 10 routines, q = the k largest 60-bit primes = 1 mod 2N (auxiliary primes 61 bits), t in {0,17,p60}: N=2 x k=1..18; N=8 x k in {8,9,16,17}; N in {64,128,256,512,1024} x k in {1,2,8,9}; N in {64,1024} x k in {16,17,18} (t in {17,p60}); (128,17), (4096,2), (4096,9) (t = p60); arrays filled with boundary integers, extreme CRT coefficients (all q_i-1 ..., per-target-prime maximal terms) at head and tail and pairwise different generic integers between, every coefficient judged by the integer specification; Bsk NTT tables checked functionally; unit family (one non-zero integer at EVERY position) for (N,k) in {(64,3),(64,9),(128,9),(256,2)}",
+    "RNSTool::new(N, q, t) x 10 routines, q = k 60-bit primes = 1 mod 2N (auxiliary primes 61 bits), t in {0,17,2^20,p60}: N in {2,4,64,128,256,512,1024,2048,4096} x k = 1..18; N in {2,64} x k in {24,32,33,63,64} (t in {0,p60}); N=8192 x k in {1,2,8,9,16,17,18} (t in {0,p60}); 17 mixed 30/45/60-bit primes at N in {8,1024}; arrays filled with boundary integers, extreme CRT coefficients at head and tail and pairwise different generic integers between, every coefficient judged by the integer specification; Bsk NTT tables checked functionally; unit family (one non-zero integer at EVERY position) for (N,k) in {(64,3),(64,9),(128,9),(256,2),(256,9),(256,17),(1024,3),(1024,9)}",
+];
+const BIG_CTX_BOUND: [&str; 2] = [
+    "RNS tools owned by contexts with long chains / large degrees (BFV N=1024 10 primes, BGV N=1024 9 primes, CKKS N=8 18 primes; 60-bit primes), every level incl. the key level, with the level's own NTT tables: filled arrays as in big_tool, every coefficient judged",
+    "RNS tools owned by contexts with long chains / large degrees (BFV N=1024 10 primes, BGV N=1024 9, CKKS N=8 18, BFV N=4096 9, CKKS N=1024 18, BGV N=2048 12, BFV N=4096 17, BFV N=8192 9, BGV N=4 33; 60-bit primes), every level incl. the key level, with the level's own NTT tables: filled arrays as in big_tool, every coefficient judged",
+];
